@@ -2,12 +2,12 @@
 (* code -> spec for C19.  One trace = one formula tree (header) and what the real code did with it:
      hdr.tree   the abstract tree (Omml.tla vocabulary; JSON arrays = sequences, objects = records)
      events, in this order, each carrying the tokenised observations:
-       Total     out = atoms of omml_to_latex(tree) | "Exception"
+       Total     out = [x |-> raised, o |-> atoms of omml_to_latex(tree)]
        Shape     (same out) matches Pattern(tree)
        Balance   (same out) brace-balanced unless the tree has literal braces
        Again     out2 = a second conversion of a freshly parsed copy (deterministic)
        Docx      doc  = what read_docx printed for the formula embedded in a paragraph
-                        (atoms | "Absent" (nothing printed) | "Exception" | "n/a" (channel not run))
+                        [st |-> "ok" | "absent" (nothing printed) | "exc" | "na" (channel not run), o |-> atoms]
        Pptx      ppt  = PptxSlide.formulas of a slide whose shape holds the formula (same encoding)
    The header's pattern is computed once (TraceInit) -- TLC decides order, multiplicity, balance
    and templates; Python only tokenises.  The index of the first unmatched event names the clause.
@@ -25,9 +25,9 @@ IsEvent(a) == l <= Len(Traces[tid].ev) /\ Ev.a = a /\ l' = l + 1 /\ UNCHANGED <<
 
 \* a call site prints the same formula, or nothing when it is blank; it never fails the document
 SameOrAbsent(ch, out) ==
-    \/ ch = "n/a"
-    \/ ch # Exception /\ ch # "Absent" /\ out # Exception /\ NoWS(ch) = NoWS(out)
-    \/ ch = "Absent" /\ out # Exception /\ Blank(out)
+    \/ ch.st = "na"
+    \/ ch.st = "ok" /\ ~out.x /\ NoWS(ch.o) = NoWS(out.o)
+    \/ ch.st = "absent" /\ ~out.x /\ Blank(out.o)
 
 TraceTotal   == IsEvent("Total") /\ Total(Ev.out)
 TraceShape   == IsEvent("Shape") /\ Matches(Ev.out, pat)
